@@ -87,7 +87,7 @@ static void _dispatch_disk_enqueue_operation(dispatch_disk_t dsk,
 static void _dispatch_stream_cleanup_operations(dispatch_stream_t stream,
 		dispatch_io_t channel);
 static void _dispatch_disk_cleanup_inactive_operations(dispatch_disk_t disk,
-		dispatch_io_t channel);
+		dispatch_io_t channel, dispatch_fd_entry_t fd_entry);
 static void _dispatch_stream_source_handler(void *ctx);
 static void _dispatch_stream_queue_handler(void *ctx);
 static void _dispatch_stream_handler(void *ctx);
@@ -1692,7 +1692,8 @@ _dispatch_fd_entry_cleanup_operations(dispatch_fd_entry_t fd_entry,
 		}
 		_dispatch_fd_entry_retain(fd_entry);
 		dispatch_async(fd_entry->disk->pick_queue, ^{
-			_dispatch_disk_cleanup_inactive_operations(fd_entry->disk, channel);
+			_dispatch_disk_cleanup_inactive_operations(fd_entry->disk, channel,
+					fd_entry);
 			_dispatch_fd_entry_release(fd_entry);
 			if (channel) {
 				_dispatch_release(channel);
@@ -1987,13 +1988,16 @@ _dispatch_stream_cleanup_operations(dispatch_stream_t stream,
 
 static inline void
 _dispatch_disk_cleanup_specified_operations(dispatch_disk_t disk,
-		dispatch_io_t channel, bool inactive_only)
+		dispatch_io_t channel, dispatch_fd_entry_t fd_entry,
+		bool inactive_only)
 {
 	// On pick queue
+	// The disk is shared by every fd_entry on the same device: without a
+	// channel, only the operations of the given fd_entry are cleaned up
 	dispatch_operation_t op, tmp;
 	TAILQ_FOREACH_SAFE(op, &disk->operations, operation_list, tmp) {
 		if (inactive_only && op->active) continue;
-		if (!channel || op->channel == channel) {
+		if (channel ? op->channel == channel : op->fd_entry == fd_entry) {
 			_dispatch_op_debug("cleanup: disk %p", op, disk);
 			_dispatch_disk_complete_operation(disk, op);
 		}
@@ -2001,16 +2005,17 @@ _dispatch_disk_cleanup_specified_operations(dispatch_disk_t disk,
 }
 
 static void
-_dispatch_disk_cleanup_operations(dispatch_disk_t disk, dispatch_io_t channel)
+_dispatch_disk_cleanup_operations(dispatch_disk_t disk, dispatch_io_t channel,
+		dispatch_fd_entry_t fd_entry)
 {
-	_dispatch_disk_cleanup_specified_operations(disk, channel, false);
+	_dispatch_disk_cleanup_specified_operations(disk, channel, fd_entry, false);
 }
 
 static void
 _dispatch_disk_cleanup_inactive_operations(dispatch_disk_t disk,
-		dispatch_io_t channel)
+		dispatch_io_t channel, dispatch_fd_entry_t fd_entry)
 {
-	_dispatch_disk_cleanup_specified_operations(disk, channel, true);
+	_dispatch_disk_cleanup_specified_operations(disk, channel, fd_entry, true);
 }
 
 #pragma mark -
@@ -2258,10 +2263,10 @@ _dispatch_disk_perform(void *ctxt)
 			_dispatch_disk_complete_operation(disk, op);
 			break;
 		case DISPATCH_OP_ERR:
-			_dispatch_disk_cleanup_operations(disk, op->channel);
+			_dispatch_disk_cleanup_operations(disk, op->channel, op->fd_entry);
 			break;
 		case DISPATCH_OP_FD_ERR:
-			_dispatch_disk_cleanup_operations(disk, NULL);
+			_dispatch_disk_cleanup_operations(disk, NULL, op->fd_entry);
 			break;
 		default:
 			dispatch_assert(result);
